@@ -13,12 +13,24 @@ TABLE = {
  "C01": (True, "runtime monitoring: every released signature checked by the library's three verification entry points over lifetime walks and boundary counters",
          "oracle = the library's own verifier through all three entry points, observed on every signature released by a workload of 6 hashes x W x H2/H5/H10 x 1..8 levels at boundary counters (around every subtree roll-over) and on complete lifetime walks through the real callback chain alternating sign / try_sign / try_sign_with_aux; a run that did not cross a roll-over of each upper level per hash is inconclusive",
          TRUST, "DESIGN.md 5 (C01)"),
+ "C03": (True, "offline checking of recorded signing histories (ghost state over released signatures and persisted keys)",
+         "seeded generator plays complete-lifetime histories (sign, refused sign, crashing callback, reload, entry-point switches, own/foreign/fresh aux) always continuing from the last persisted key; the history recorded at the API boundary is checked by an OTS ghost map keyed on public material (level, I, q), by the mixed-radix digit rule for the n-th released signature and by the counter+1 rule for persisted keys; the count of distinct one-time keys over a lifetime must equal the number of (tree, leaf) pairs",
+         TRUST, "DESIGN.md 5 (C03)"),
+ "C05": (True, "runtime monitoring of complete lifetimes + exhaustive execution of the real accounting arithmetic through hooks",
+         "end to end: lifetime walks with get_lifetime before every signature, wiped-key check on the last hand-over, refusal without callback afterwards; the accounting arithmetic (real increment / get_lifetime code via hook accessors) is executed for every list of 1..8 heights over {2,5,10,15,20,25} with sum<=63 at all boundary counters and compared with u128 arithmetic (exhaustive: true for that finite space)",
+         TRUST + "; the hook's skeleton key mirrors how HssPrivateKey::from consumes upper-level leaves (tied to the real path by the end-to-end walks)", "DESIGN.md 5 (C05)"),
  "C04": (True, "fault enumeration with a recording, scripted update callback",
          "the grid state x callback outcome x aux variant x entry point is finite for small keys and is enumerated completely (every counter of the lifetime of [H2],[H2,H2],[H2,H2,H2],[H5] under all 6 hashes, every failing precondition); the callback recorder decides: count, argument = model successor, no release after refusal, no invocation when nothing can be signed",
          TRUST, "DESIGN.md 5 (C04)"),
  "C07": (True, "runtime differential monitoring: byte comparison with an independently written RFC 8554 signer + independent verifier + reference tool",
          "every signature released on the C01 grid is compared byte for byte with the model signer run on the same key bytes and message (first differing field named), checked against the RFC length formula, verified by the model and (SHA-256/32) the hash-sigs tool; strict Appendix-B parameters are applied separately so that the recorded ls deviation (known finding) stays visible without masking anything else",
          TRUST + "; the upper-level randomizer rule and the 55-byte PRNG block for n<32 are pinned to the tree under test", "DESIGN.md 5 (C07)"),
+ "C12": (True, "exhaustive execution of the real digit-encoding code through a hook, against the Appendix-B formulas, plus domination search",
+         "the real append_checksum_to + coef are executed for every digest byte position x value and for every attainable checksum value of all 12 (n,w) (finite sub-spaces, enumerated), for millions of random digests and adversarial neighbour pairs (domination search); chain positions recovered from released signatures tie the hook to what sign emits; the three tabulated ls deviations are reported as known findings with concrete domination witnesses",
+         TRUST, "DESIGN.md 5 (C12)"),
+ "C13": (True, "exhaustive execution of the real counter arithmetic through hooks over all key shapes, with the reference tool as witness",
+         "every list of 1..8 heights over {5,10,15,20,25} (thorough: also with the 4-leaf height) x boundary counters is pushed through the real CompressedUsedLeafsIndexes::to / increment / get_lifetime (hook accessors) and compared with u128 mixed-radix arithmetic, including sum(h)>=64 (no arithmetic failure, never exhausted early); leaf indices of library signatures and of hash-sigs tool signatures at the same edited counters are compared end to end",
+         TRUST, "DESIGN.md 5 (C13)"),
  "C08": (True, "runtime differential monitoring against an independent model and the reference tool",
          "differential runtime monitor: every keygen of a seeded workload over 6 hashes x W x heights x 1..8 levels x seed classes is compared byte for byte with an independent model and, for SHA-256/32, with the hash-sigs tool; child-tree derivation is observed through the embedded public keys of released signatures",
          TRUST, "DESIGN.md 5 (C08)"),
